@@ -20,13 +20,16 @@ for f in sorted(glob.glob(out+'/race/C*.*')):
         if 'WARNING: DATA RACE' not in rep: continue
         blocks=re.split(r'\n\n',rep.strip())
         tops=[]
-        for b in blocks[:2]:
+        acc=[b for b in blocks if re.search(r'^(Read|Write|Previous read|Previous write|Atomic|Previous atomic)[^\n]* at 0x', b, re.M)]
+        for b in acc[:2]:
             lines=b.split('\n')
+            h=next(i for i,l in enumerate(lines) if ' at 0x' in l)
+            lines=lines[h:]
             fr=[(lines[i].strip(),lines[i+1].strip()) for i in range(1,len(lines)-1,2) if lines[i].startswith('  ') and lines[i+1].startswith('      ')]
             # first frame outside the shims
             top=next(((fn,loc) for fn,loc in fr if '/zzverif/' not in loc and 'sync/atomic' not in fn), None)
             tops.append(top)
-        if None in tops: continue
+        if None in tops or len(tops)<2: continue
         if any('/verif/h/' in loc for fn,loc in tops): continue   # the harness's own variables
         key=tuple(sorted((fn,loc.split(' ')[0]) for fn,loc in tops))
         seen.setdefault(key,set()).add(chk)
